@@ -153,6 +153,8 @@ class Node:
         self.pending_exit = {}         # inst -> (container, signal): ended,
         #                                tombstone not written yet
         self.ended = set()             # containers that ended on their own
+        self.down_recorded = {}        # container -> exit kind: the real MonitorContainerDown ran for it
+        self.exit_kind = {}            # container -> how it ended (reach counters only)
         self.tombstoned = set()        # containers whose tombstone was written
         self.tomb_owner = {}           # (id, timestamp) -> container
         self.tomb_seq = 0
@@ -311,12 +313,17 @@ class Node:
             return False
         signal = 0
         try:
-            if how == 'exitinfo':
+            if how in ('exitinfo', 'exitinfo0', 'exitinfo_sig'):
+                # the service's tombstone: exit status 1, a service that ran to completion (0, no signal), or one
+                # that was killed by a signal (s6 reports return code 256 then)
+                rc, sig = {'exitinfo': (1, 0), 'exitinfo0': (0, 0), 'exitinfo_sig': (256, 15)}[how]
                 svc = 'svc0'
                 monitor.MonitorContainerDown(self.mgr.tm_env).execute({
                     'id': '%s,%s' % (container, svc),
-                    'return_code': 1, 'signal': 0, 'timestamp': 1700000000.0,
+                    'return_code': rc, 'signal': sig, 'timestamp': 1700000000.0,
                 })
+                # the product's own action was told that the container's service is down for good
+                self.down_recorded[container] = how
             elif how == 'aborted':
                 app_abort.flag_aborted(data_dir,
                                        why=app_abort.AbortedReason.PORTS)
@@ -324,12 +331,15 @@ class Node:
                 utils.touch(os.path.join(data_dir, 'oom'))
             elif how == 'sigabrt':
                 signal = 6
+            elif how == 'killed':
+                signal = 9          # the container's pid1 is killed (SIGKILL): nobody records anything
             else:
                 raise AssertionError(how)
         except Exception as err:      # pylint: disable=broad-except
             raise HandlerError('monitor.container_exit:%s' % how, err)
         self.pending_exit[inst] = (container, signal)
         self.ended.add(container)
+        self.exit_kind[container] = how
         return True
 
     def _write_tombstone(self, inst, container, signal, origin):
@@ -437,13 +447,23 @@ class Node:
                       if not n.startswith('.'))
 
     def cleanup_one(self, idx, partial=None):
+        """idx: position in the sorted listing, or the name of a cleanup link.  partial: a fraction (the removal is
+        interrupted half-way) or 'monitor-inside' (the node monitor runs its real loop between the two steps of the
+        job: container directory removed, cleanup link not yet unlinked)."""
         from treadmill import cleanup
         links = self.cleanup_links()
         if not links:
             return False
-        name = links[idx % len(links)]
+        if isinstance(idx, str):
+            if idx not in links:
+                return False
+            name = idx
+        else:
+            name = links[idx % len(links)]
         fakes.reset_logs()
-        if partial is not None:
+        if partial == 'monitor-inside':
+            fakes._STATE['finish_then'] = self._midsync_monitor       # pylint: disable=protected-access
+        elif partial is not None:
             fakes._STATE['finish_partial'] = partial       # pylint: disable=protected-access
         try:
             cleanup.Cleanup(self.mgr.tm_env).invoke('linux', name)
@@ -454,6 +474,7 @@ class Node:
             raise HandlerError('Cleanup.invoke', err)
         finally:
             fakes._STATE.pop('finish_partial', None)       # pylint: disable=protected-access
+            fakes._STATE.pop('finish_then', None)          # pylint: disable=protected-access
         return True
 
     # -- restarts ---------------------------------------------------------
